@@ -17,7 +17,7 @@ from pyvc.ctx import Ctx
 
 class TemplateLemma:
     qualname = 'fsic.parser.MODEL_TEMPLATE_TYPED~MODEL_TEMPLATE_UNTYPED'
-    props = ('C15',)
+    props = ('C15', 'C03')
 
     def scenarios(self):
         return ['lemma']
@@ -57,6 +57,20 @@ class TemplateLemma:
             for f in ('{endogenous}', '{exogenous}', '{parameters}', '{errors}', '{lags}', '{leads}', '{equations}'):
                 ctx.prove(z3.BoolVal(fp.MODEL_TEMPLATE_TYPED.count(f) == 1 and fp.MODEL_TEMPLATE_UNTYPED.count(f) == 1),
                           f'field_{f}_occurs_exactly_once_in_both_templates', 'lemma', assume_after=False)
+            # each class attribute is filled from the field of its own name (LAGS from {lags}, LEADS from {leads}, the four name lists likewise)
+            for label, text in (('typed', ta), ('untyped', tb)):
+                tree = ast.parse(text)
+                cls = next((n for n in tree.body if isinstance(n, ast.ClassDef)), None)
+                got = {}
+                for st in (cls.body if cls else []):
+                    tgt = st.target if isinstance(st, ast.AnnAssign) else (st.targets[0] if isinstance(st, ast.Assign) and len(st.targets) == 1 else None)
+                    if isinstance(tgt, ast.Name) and st.value is not None:
+                        got[tgt.id] = ast.unparse(st.value)
+                want = {'ENDOGENOUS': "['__E__']", 'EXOGENOUS': "['__X__']", 'PARAMETERS': "['__P__']", 'ERRORS': "['__R__']", 'LAGS': '__LAGS__', 'LEADS': '__LEADS__'}
+                for k_, v_ in want.items():
+                    ctx.prove(z3.BoolVal(got.get(k_) == v_), f'{label}_template:class_attribute_{k_}_is_filled_from_its_own_field', 'lemma', assume_after=False, note=str(got.get(k_)))
+                ctx.prove(z3.BoolVal(got.get('NAMES') == 'ENDOGENOUS + EXOGENOUS + PARAMETERS + ERRORS' and got.get('CHECK') == 'ENDOGENOUS'),
+                          f'{label}_template:NAMES_is_the_four_classes_in_order_and_CHECK_is_ENDOGENOUS', 'lemma', assume_after=False, note=f"{got.get('NAMES')} / {got.get('CHECK')}")
             ctx.prove(z3.BoolVal(fp.MODEL_TEMPLATE_TYPED.rstrip().endswith('{equations}\\'.rstrip('\\')) or fp.MODEL_TEMPLATE_TYPED.endswith('{equations}')),
                       'equations_slot_is_last_in_typed_template', 'lemma', assume_after=False)
             ctx.prove(z3.BoolVal(fp.MODEL_TEMPLATE_UNTYPED.endswith('{equations}')), 'equations_slot_is_last_in_untyped_template', 'lemma', assume_after=False)
